@@ -146,7 +146,7 @@ func (m *M) putIdentity(r int, kind int) {
 
 var scalarClasses = []string{"zero", "one", "two", "three", "minus_one", "minus_two", "half_up", "half_down",
 	"pow2", "pow2_255", "top_bit_set", "sparse", "dense", "limb_pattern", "near_n", "small", "random", "random",
-	"word_boundary", "word_structure", "mont_window"}
+	"word_boundary", "word_structure", "mont_window", "mont_near_const"}
 
 func (m *M) scalarOf(class string) *big.Int {
 	switch class {
@@ -208,6 +208,27 @@ func (m *M) scalarOf(class string) *big.Int {
 		return v
 	case "mont_window": // the stored (Montgomery) limbs lie in a boundary window
 		w, _ := m.window()
+		return mulmod(new(big.Int).Mod(w, bigN), rInvN, bigN)
+	case "mont_near_const": // the stored limbs are those of 0, 1 or -1 with one or two bits / one limb changed
+		base := []*big.Int{big.NewInt(0), new(big.Int).Mod(bigR, bigN), new(big.Int).Sub(bigN, new(big.Int).Mod(bigR, bigN))}[m.rng.Intn(3)]
+		w := new(big.Int).Set(base)
+		switch m.rng.Intn(3) {
+		case 0:
+			w.SetBit(w, m.rng.Intn(256), w.Bit(m.rng.Intn(256))^1)
+		case 1:
+			i, j := m.rng.Intn(256), m.rng.Intn(256)
+			w.SetBit(w, i, w.Bit(i)^1)
+			w.SetBit(w, j, w.Bit(j)^1)
+		default: // one whole 64-bit limb incremented / zeroed
+			sh := uint(64 * m.rng.Intn(4))
+			if m.rng.Intn(2) == 0 {
+				w.Add(w, new(big.Int).Lsh(one, sh))
+			} else {
+				mask := new(big.Int).Lsh(new(big.Int).SetUint64(^uint64(0)), sh)
+				w.AndNot(w, mask)
+			}
+		}
+		w.Mod(w, bigR)
 		return mulmod(new(big.Int).Mod(w, bigN), rInvN, bigN)
 	default:
 		return m.randBig(bigN)
